@@ -170,6 +170,52 @@ theorem C02_cell_write_meaning (c : CG) (hr : ready c.hs = true) (hc : chainOK c
   obtain ⟨e, hp, hv⟩ := parse_of_L0 (link_sem (ws := c.chain) (b := false) h0 (by simp)).1
   exact ⟨e, by simp [denote, CG.fmt, hl.lex, hp], hv⟩
 
+/-! ## the text that was read (C02_parse_meaning, tree side) -/
+
+/-- a cell leaf has the same text as the surface leaf `parseInputNode` makes of the same value -/
+theorem fmt_cell_leaf (v : VN) : (HS.unit v.value true true (some v)).fmt = (parseInputNode (.val v)).fmt := rfl
+
+/-- `HalfSpace.parse_input_node` loses no text: the chain of skipped `_SHIFT` trees around the text of the HalfSpace
+    that was built is the text of the parser's tree. -/
+theorem parse_fmt (g : GT) : wrapFmt (chainOf g).1 (parseInputNode g).fmt = g.format := by
+  induction g with
+  | val v => simp [chainOf, parseInputNode, wrapFmt, HS.fmt, GT.format]
+  | shift w l ih =>
+    simp only [chainOf, parseInputNode, wrapFmt, GT.format]
+    rw [ih]
+  | compl id order opr ep l ih =>
+    have key : ∀ child : HS, child.fmt = (parseInputNode l).fmt →
+        wrapFmt [] (HS.compl child (some ⟨id, order, opr, ep, (chainOf l).1, (chainOf l).2, [], 0⟩)).fmt
+          = (GT.compl id order opr ep l).format := by
+      intro child hch
+      simp only [wrapFmt, GT.format, HS.fmt]
+      congr 1
+      funext k
+      cases k <;> simp [hch, ih]
+    cases l with
+    | val v => exact key _ (fmt_cell_leaf v)
+    | shift w l' => exact key _ rfl
+    | compl a1 a2 a3 a4 a5 => exact key _ rfl
+    | bin a1 a2 a3 a4 a5 a6 a7 => exact key _ rfl
+  | bin id o order opr ep l r ihl ihr =>
+    simp only [chainOf, parseInputNode, wrapFmt, GT.format, HS.fmt]
+    congr 1
+    funext k
+    cases k <;> simp [ihl, ihr]
+
+theorem parseCell_fmt (g : GT) : (parseCell g).fmt = g.format := parse_fmt g
+
+/-- **C02_read_meaning.** For every syntax tree `g` of a geometry (as `CellParser` builds it) whose HalfSpace is in
+    the ready state: the text that was read, `g.format`, is well-formed MCNP geometry and denotes exactly the Boolean
+    function of the HalfSpace tree `HalfSpace.parse_input_node` builds from `g` — the text read and the object the
+    API exposes agree. (That `g.format` *is* the input text is the losslessness of the parser, compared on every
+    parsed case.) -/
+theorem C02_read_meaning (g : GT) (hr : ready (parseInputNode g) = true)
+    (hc : chainOK (chainOf g).1 (parseInputNode g).fmt = true) :
+    ∃ e, denote g.format = some e ∧ ∀ ρ, e.eval ρ = (parseInputNode g).eval ρ := by
+  have := C02_cell_write_meaning (parseCell g) hr hc
+  rwa [parseCell_fmt] at this
+
 /-! ## the operators (C02_ops) -/
 
 theorem C02_ops_surface (n : Nat) (pos : Bool) (ρ : Env) : (surfaceSide n pos).eval ρ = (ρ false n == pos) := rfl
